@@ -233,6 +233,24 @@ def npow (a : GRat) : Nat → GRat
   | n + 1 => npow a n * a
 end GRat
 
+/-! ### exclude_zeros (last step of `System_R.do_ws_dist`) -/
+
+/-- `Rvectors.exclude_zeros`: a block is `(R, all elements of all matrices at R)`; R is kept iff some element is
+    "big" (`abs(x) > tolerance`); kept blocks are unchanged and stay in order -/
+def excludeZeros {K : Type} (big : K → Bool) (blocks : List (Vec3 × List K)) : List (Vec3 × List K) :=
+  blocks.filter fun b => b.2.any big
+
+/-- `abs(z) > tol` for a Gaussian rational and `tol ≥ 0`, decided exactly -/
+def bigger (tol : Rat) (z : GRat) : Bool := decide (z.re * z.re + z.im * z.im > tol * tol)
+
+/-- numpy's ordering of complex numbers (real part first) — what `max(axis) > tol` WITHOUT `abs` would test -/
+def lexGreater (z w : GRat) : Bool := decide (z.re > w.re) || (decide (z.re = w.re) && decide (z.im > w.im))
+def lexMax (l : List GRat) : Option GRat :=
+  l.foldl (fun m z => match m with | none => some z | some w => if lexGreater z w then some z else some w) none
+/-- the defective variant "largest element exceeds the tolerance" (documentation only) -/
+def excludeZerosLexMax (tol : Rat) (blocks : List (Vec3 × List GRat)) : List (Vec3 × List GRat) :=
+  blocks.filter fun b => match lexMax b.2 with | some z => lexGreater z ⟨tol, 0⟩ | none => false
+
 /-- primitive `n`-th root of unity `e^{2πi/n}` for n ∈ {1,2,4} -/
 def zeta (n : Nat) : GRat := if n = 1 then 1 else if n = 2 then ⟨-1, 0⟩ else GRat.I
 
@@ -326,6 +344,17 @@ def handle : List String → String
             ++ showListWith showGRat ";" (sl.map fun s => RtoKvals (gchar false m s) vals)) "#"
         ((allPairs c.length).zip xss)
     | _, _, _, _, _, _ => "bad-op"
+  -- exclude_zeros(tolerance): blocks "R1,R2,R3:re,im;re,im;..." separated by '#'  ->  kept R vectors
+  | ["exclz", tol, bl] =>
+    let parseBlock := fun (t : String) =>
+      match t.splitOn ":" with
+      | [r, xs] => match (parseInts? r).bind toVec3?, parseGRats? xs with
+        | some R, some X => some (R, X)
+        | _, _ => none
+      | _ => none
+    match parseRat? tol, (bl.splitOn "#").mapM parseBlock with
+    | some t, some blocks => showListWith showVec3 ";" ((excludeZeros (bigger t) blocks).map (·.1))
+    | _, _ => "bad-op"
   | _ => "bad-op"
 
 end WB.C01
